@@ -281,9 +281,35 @@ class Prop(SeqProp):
         # itself (a NaN), equal objects of different types (1, 1.0, True), None, nested tuples and lists
         for _ in range(150 if tier == "quick" else 1500):
             out.append({"kind": "odd-elements", "seed": rng.randrange(1 << 30)})
+        # Batcher iterated (for / list / zip) and indexed, over sequences that are not lists: str, bytes, range, tuples of them
+        for _ in range(60 if tier == "quick" else 600):
+            out.append({"kind": "batcher-sequences", "n": rng.randint(0, 11), "b": rng.randint(1, 5), "type": rng.randrange(5)})
         return out
 
     def run_extra(self, desc):
+        if desc["kind"] == "batcher-sequences":
+            from windpyutils import generic as g
+            n, b = desc["n"], desc["b"]
+            data = ["abcdefghijk"[:n], bytes(range(65, 65 + n)), range(10, 10 + n), list(range(n)),
+                    ("abcdefghijk"[:n], range(n))][desc["type"]]
+            try:
+                bt = g.Batcher(data, b)
+                nb = -(-n // b)
+                if isinstance(data, tuple):
+                    want = [tuple(m[j * b:(j + 1) * b] for m in data) for j in range(nb)]
+                else:
+                    want = [data[j * b:(j + 1) * b] for j in range(nb)]
+                norm = lambda x: tuple(norm(y) for y in x) if isinstance(x, tuple) else (x if isinstance(x, (str, bytes)) else list(x))
+                got_iter = [norm(x) for x in bt]
+                got_idx = [norm(bt[j]) for j in range(len(bt))]
+                want = [norm(x) for x in want]
+            except Exception as e:  # noqa
+                return f"Batcher({data!r}, {b}) raised {type(e).__name__}: {e}"
+            if len(bt) != nb or got_idx != want:
+                return f"Batcher({data!r}, {b}): len {len(bt)}, batches by index {got_idx}, the consecutive slices are {want}"
+            if got_iter != want:
+                return f"Batcher({data!r}, {b}) iterated gives {got_iter}, the consecutive slices are {want} (indexing gives them)"
+            return None
         if desc["kind"] == "odd-elements":
             import random
             from windpyutils import generic as g
